@@ -449,7 +449,10 @@ package server
 //@   ensures $held == old($held)
 //@ assumed (*badger.Txn).Commit
 //@   pure
+// updating another dataset's counter stores the meta entity through core.Dataset's own StoreEntities, which takes
+// core.Dataset's write lock: the caller must not hold it already (Go mutexes are not reentrant)
 //@ assumed (*Dataset).updateDataset
+//@   requires [C05:core-dataset-lock-free-when-another-datasets-counter-is-updated] ds.ID != "core.Dataset" ==> (forall d *Dataset :: has($held, addrOf(d.WriteLock)) ==> d.ID != "core.Dataset")
 //@   preserves Dataset.*, Store.*
 
 //@ unit (*Dataset).StoreEntities
@@ -628,3 +631,48 @@ package server
 //@     assert [C04:next-id-persisted-before-the-dataset-record] idPersistedG && ds.InternalID == freshG
 //@   at call storeEntity#1 before
 //@     assert [C19:meta-entity-stored-in-core-dataset-after-the-record] $valuesStored == old($valuesStored) + 2
+
+// ---------------------------------------------------------------------------
+// C04 / C05: multi-dataset transactions: datasets locked in name order, one badger transaction, ids before data
+
+//@ assumed sort.Strings
+//@   modifies []string
+//@   ensures len(x) == old(len(x)) && (forall i int, j int :: 0 <= i && i < j && j < len(x) ==> x[i] <= x[j])
+//@   ensures (forall i int, j int :: 0 <= i && i < j && j < len(x) ==> old(x[i] != x[j])) ==> (forall i int, j int :: 0 <= i && i < j && j < len(x) ==> x[i] != x[j])
+// the dataset registry maps a name to the dataset carrying that name
+//@ assumed (*sync.Map).Load
+//@   pure
+//@   ensures ret1 && typeof(ret0) == typeid("*server.Dataset") ==> cast(ret0, "*server.Dataset") != nil && (typeof(key) == typeid("string") ==> cast(ret0, "*server.Dataset").ID == cast(key, "string"))
+//@ assumed (*MetaContext).RegisterTransactionSink
+//@   pure
+
+//@ unit (*Store).ExecuteTransaction
+//@   prop C04 C05
+//@   ghost idsCommittedG bool = false
+//@   ghost txnG int = 0
+//@   requires s != nil && transaction != nil && s.MetaCtx != nil
+//@   requires [callers-hold-no-dataset-lock] forall l int :: has($held, l) ==> lockLevel(l) < 2
+//@   safe typeassert
+//@   at call NewTransaction#1
+//@     ghost txnG := $result
+//@   at call Load#1
+//@     assume $result1 ==> typeof($result0) == typeid("*server.Dataset")
+//@   at call Load#2
+//@     assume $result1 ==> typeof($result0) == typeid("*server.Dataset")
+//@   at call Lock#1 before
+//@     assert [C05:dataset-locks-taken-in-name-order] forall d *Dataset :: has($held, addrOf(d.WriteLock)) ==> d.ID < cast(dataset, "*server.Dataset").ID
+//@   at call StoreEntitiesWithTransaction#1 before
+//@     assume ds != nil && ds.store != nil && (ds.fullSyncStarted ==> ds.fullSyncSeen != nil) && (forall i int :: 0 <= i && i < len(entities) ==> entities[i] != nil)
+//@     assert [C04:all-datasets-written-in-one-transaction] txn == txnG
+//@   at call commitIDTxn#1
+//@     ghost idsCommittedG := $result == nil
+//@   at call Commit#1 before
+//@     assert [C04:ids-committed-before-data] idsCommittedG && $arg0 == txnG
+//@   loop 1
+//@     invariant forall a int :: 0 <= a && a < len(datasetNames) ==> visited(datasetNames[a])
+//@     invariant forall a int, b int :: 0 <= a && a < b && b < len(datasetNames) ==> datasetNames[a] != datasetNames[b]
+//@   loop 2
+//@     invariant -1 <= $i && $i < len(datasetNames)
+//@     invariant forall a int, b int :: 0 <= a && a < b && b < len(datasetNames) ==> datasetNames[a] < datasetNames[b]
+//@     invariant forall d *Dataset :: has($held, addrOf(d.WriteLock)) ==> $i >= 0 && d.ID <= datasetNames[$i]
+//@     invariant forall l int :: has($held, l) ==> lockLevel(l) <= 2
